@@ -122,6 +122,15 @@ def check_long_join(xs):
             raise Violation('element %d of a %d-element arrayJoin is %r, its text %r parses back to %r' % (i, len(xs), x, t, back), d, 'join-roundtrip')
 
 
+_alias = {}
+
+
+def _alias_expr(name):
+    if name not in _alias:
+        _alias[name] = impl.bs.parse_expression('%s(s)' % name)
+    return _alias[name]
+
+
 def check_parse(s, radix=None):
     d = {'kind': 'parse', 's': s, 'radix': radix}
     log = []
@@ -140,6 +149,7 @@ def check_parse(s, radix=None):
             raise Violation('numberParseFloat(%r) = %r, expected %r' % (s, v, want), d, 'parsefloat-value')
     elif s in NEAR_MISSES and v is not None:
         raise Violation('numberParseFloat(%r) = %r, expected null' % (s, v), d, 'parsefloat-nearmiss')
+    pf_value = v
     # numberParseInt
     log = []
     if radix is None:
@@ -155,8 +165,24 @@ def check_parse(s, radix=None):
         raise Violation('numberParseInt(%r) = %r' % (s, v), d, 'parseint-nonfinite')
     if log:
         raise Violation('numberParseInt(%r, %r) failed instead of returning null: %r' % (s, radix, log), d, 'parseint-fails')
+    # the same parsers under their expression names (parseInt / parseFloat in evaluate_expression)
+    if radix is None:
+        for alias, script_value in (('parseInt', v), ('parseFloat', pf_value)):
+            try:
+                ev = impl.bs.evaluate_expression(_alias_expr(alias), {'globals': {'s': s}})
+            except Exception as e:  # pylint: disable=broad-except
+                raise Violation('expression %s(%r) raised %s' % (alias, s[:40], type(e).__name__), d, 'alias-raises') from e
+            if type(ev) is not type(script_value) or ev != script_value:
+                raise Violation('expression %s(%s) = %r, the script function gives %r' % (alias, repr(s) if len(s) < 60 else '<%d characters>' % len(s), ev, script_value), d,
+                                'alias-differs:' + alias)
     digits = '0123456789abcdefghijklmnopqrstuvwxyz'[:radix_eff]
-    if re.fullmatch(r'[+-]?[%s]+' % digits, s, re.I) and s.isascii():
+    if radix_eff == 10 and v is not None and re.fullmatch(r'\s*[+-]?(\d+\.\d*|\.\d+|\d+(\.\d*)?[eE][+-]?\d+|\.\d+[eE][+-]?\d+)\s*', s):
+        # a decimal text with a fraction point or an exponent is not an integer text, however long it is or however it is padded
+        raise Violation('numberParseInt(%s) = %r, expected null (the text has a fraction or an exponent)' % (
+            repr(s) if len(s) < 60 else '<%d characters: %r...%r>' % (len(s), s[:12], s[-12:]), v), d, 'parseint-partial')
+    if len(s) > 4000:
+        pass        # (beyond the host's integer text limit the value of a valid integer text is not asserted)
+    elif re.fullmatch(r'[+-]?[%s]+' % digits, s, re.I) and s.isascii():
         want = int(s, radix_eff)
         if v != want:
             raise Violation('numberParseInt(%r, %r) = %r, expected %r' % (s, radix, v, want), d, 'parseint-value')
@@ -213,7 +239,12 @@ decimal_text = st.builds(
 )
 mutated_text = st.builds(lambda t, i, c: t[:i % (len(t) + 1)] + c + t[i % (len(t) + 1):], decimal_text, st.integers(0, 40),
                          st.sampled_from(['x', ' ', '.', 'e', '-', ',', '_', '0x', 'inf', '٣']))
-any_text = st.one_of(decimal_text, decimal_text, mutated_text, st.sampled_from(NEAR_MISSES + INT_NEAR_MISSES), st.text(max_size=8),
+# the same texts padded to thousands of characters (leading zeros, surrounding blanks, trailing zeros of the fraction)
+long_text = st.builds(lambda t, how, n: {'zeros': (t[0] if t[:1] in '+-' else '') + '0' * n + t.lstrip('+-'), 'lead': ' ' * n + t, 'trail': t + ' ' * n,
+                                         'fraction': t + ('0' * n if '.' in t and 'e' not in t.lower() else '')}[how],
+                      st.one_of(decimal_text, st.sampled_from(['12.75', '1e3', '.5', '12.5', '7', '-3', '1.', '0.0', '1e-3'])),
+                      st.sampled_from(['zeros', 'lead', 'trail', 'fraction']), st.sampled_from([4290, 4301, 4400, 5000, 9000]))
+any_text = st.one_of(long_text, decimal_text, decimal_text, mutated_text, st.sampled_from(NEAR_MISSES + INT_NEAR_MISSES), st.text(max_size=8),
                      st.integers(-10 ** 30, 10 ** 30).map(str), st.text(alphabet='0123456789abcdefxyzABCDEF+-', max_size=10))
 
 
